@@ -98,11 +98,25 @@ def showPair (a : Agent) (p : Pair) : String :=
   let rt := (rc.map (·.ty)).getD 0
   s!"{p.id}:{la}>{ra}:{rt}:{p.state.str}:n{b01 p.nominated}d{b01 p.nomOnSuccess}v{showOpt p.deferredNom}:c{p.reqCount}:p{a.pairPrio p}:q{p.reqSent}/{p.reqRecv}/{p.respSent}/{p.respRecv}:k{p.pktSent}/{p.pktRecv}/{p.bytesSent}/{p.bytesRecv}"
 
-def showRemote (c : Cand) : String :=
-  s!"{c.ty}@{c.net}.{c.addr}{if c.form != 0 then s!"~{c.form}" else ""}:p{c.prio}:r{showOpt c.rel}:lr{showMs c.lastRecv}"
-def showLocal (c : Cand) : String := s!"{c.ty}@{c.net}.{c.addr}:p{c.prio}:ls{showMs c.lastSent}"
+/-- tcptype mark of the digest: `^a` active, `^p` passive, `^s` simultaneous-open, nothing when unspecified -/
+def ttMark (tt : Nat) : String := if tt == 1 then "^a" else if tt == 2 then "^p" else if tt == 3 then "^s" else ""
 
-def byNet (l : List Cand) : List Cand := l.filter (·.net == 0) ++ l.filter (·.net == 1)
+def parseTT (s : String) : Option Nat :=
+  if s == "-" then some 0 else if s == "a" then some 1 else if s == "p" then some 2 else if s == "s" then some 3 else none
+
+def showRemote (c : Cand) : String :=
+  s!"{c.ty}@{c.net}.{c.addr}{if c.form != 0 then s!"~{c.form}" else ""}{ttMark c.tt}:p{c.prio}:r{showOpt c.rel}:lr{showMs c.lastRecv}"
+def showLocal (c : Cand) : String := s!"{c.ty}@{c.net}.{c.addr}{ttMark c.tt}:p{c.prio}:ls{showMs c.lastSent}"
+
+/-- udp4, udp6, tcp4, tcp6: the order in which the harness walks the per-network-type candidate sets -/
+def byNet (l : List Cand) : List Cand :=
+  l.filter (·.net == 0) ++ l.filter (·.net == 1) ++ l.filter (·.net == 2) ++ l.filter (·.net == 3)
+
+/-- address ids name transport addresses: an id is reduced mod `tcpBase` and tagged by the network it is used on -/
+def tagAddr (net addr : Nat) : Nat := (if isTCP net then tcpBase else 0) + addr % tcpBase
+
+/-- the source id of an inbound op is on the transport of the receiving local address -/
+def tagSrc (la src : Nat) : Nat := (if la ≥ tcpBase then tcpBase else 0) + src % tcpBase
 
 def showAgent (a : Agent) (outs : List Out) : String :=
   let cs := outs.filterMap fun | .cbState s => some s.str | _ => none
@@ -130,8 +144,8 @@ def parseCand (ty net addr prio rel : String) : Option Cand :=
   match ty.toNat?, net.toNat?, addr.toNat?, prio.toNat? with
   | some ty, some net, some addr, some prio =>
     -- only host candidates have a nil related address; the other constructors always allocate one
-    some { uid := 0, ty := ty, net := net, addr := addr, prio := prio,
-           rel := if ty == 1 then none else if rel == "-" then some 0 else rel.toNat? }
+    some { uid := 0, ty := ty, net := net, addr := tagAddr net addr, prio := prio,
+           rel := if ty == 1 then none else if rel == "-" then some 0 else rel.toNat?.map (· % tcpBase) }
   | _, _, _, _ => none
 
 def who (s : String) : Option Bool := if s == "A" then some false else if s == "B" then some true else none
@@ -163,6 +177,15 @@ def stepSys (st : State) (toks : List String) : Option (Sys × String) :=
     match who w, parseCand ty net addr prio rel, form.toNat? with
     | some isB, some c, some form => some (agentOp st isB (.addRemote s.now { c with form := form }))
     | _, _, _ => none
+  -- trailing tcptype (a | p | s | -)
+  | ["addremote", w, ty, net, addr, prio, rel, form, tt] =>
+    match who w, parseCand ty net addr prio rel, form.toNat?, parseTT tt with
+    | some isB, some c, some form, some tt => some (agentOp st isB (.addRemote s.now { c with form := form, tt := tt }))
+    | _, _, _, _ => none
+  | ["addlocal", w, ty, net, addr, prio, rel, tt] =>
+    match who w, parseCand ty net addr prio rel, parseTT tt with
+    | some isB, some c, some tt => some (agentOp st isB (.addLocal s.now { c with tt := tt }))
+    | _, _, _ => none
   | ["start", w, ctl, ru, rp] =>
     (who w).map fun isB => agentOp st isB (.start s.now (ctl == "1") (tok ru) (tok rp))
   | ["creds", w, ru, rp] => (who w).map fun isB => agentOp st isB (.setRemoteCreds (tok ru) (tok rp))
@@ -175,11 +198,11 @@ def stepSys (st : State) (toks : List String) : Option (Sys × String) :=
   | ["drop", k] => k.toNat?.map fun k => let s := s.drop k; (s, render s "-" [] [] (n - (if k < n then 1 else 0)))
   | ["inject", w, la, src, spec] =>
     match who w, la.toNat?, src.toNat?, parseMsg spec with
-    | some isB, some la, some src, some m => some (agentOp st isB (.inbound s.now la src m))
+    | some isB, some la, some src, some m => some (agentOp st isB (.inbound s.now la (tagSrc la src) m))
     | _, _, _, _ => none
   | ["data", w, la, src, len, sl] =>
     match who w, la.toNat?, src.toNat?, len.toNat? with
-    | some isB, some la, some src, some len => some (agentOp st isB (.inboundData s.now la src len (sl == "1")))
+    | some isB, some la, some src, some len => some (agentOp st isB (.inboundData s.now la (tagSrc la src) len (sl == "1")))
     | _, _, _, _ => none
   | ["write", w, len, sl] =>
     match who w, len.toNat? with
@@ -197,7 +220,14 @@ def stepSys (st : State) (toks : List String) : Option (Sys × String) :=
     | _, _ => none
   | ["renom", w, la, ri, v] =>
     match who w, la.toNat?, ri.toNat?, v.toNat? with
-    | some isB, some la, some ri, some v => some (agentOp st isB (.renominate s.now la ri v))
+    | some isB, some la, some ri, some v =>
+      -- the harness indexes the remote candidates set by set (udp4, udp6, tcp4, tcp6); the model lists them in
+      -- order of arrival
+      let rems := (s.agent isB).remotes
+      let ri' := match (byNet rems)[ri]? with
+        | some c => rems.findIdx (·.uid == c.uid)
+        | none => rems.length
+      some (agentOp st isB (.renominate s.now la ri' v))
     | _, _, _, _ => none
   | ["restart", w, u, p] => (who w).map fun isB => agentOp st isB (.restart s.now (tok u) (tok p))
   | ["close", w] => (who w).map fun isB => agentOp st isB .close
